@@ -385,6 +385,7 @@ def basic_params(advan, trans):
 
 
 PARAM_VALUES = [(3, 2), (2, 1), (5, 3), (7, 2), (5, 1), (1, 2), (7, 4), (3, 1), (11, 2), (4, 3), (13, 3), (9, 2), (7, 1), (11, 4), (13, 2), (1, 3)]
+DEC_VALUES = [v for v in PARAM_VALUES if v[1] in (1, 2, 4)]    # literals must have a finite decimal expansion
 AMOUNTS = [(3, 1), (5, 1), (7, 1), (11, 1), (13, 2), (17, 3)]
 
 
@@ -405,7 +406,7 @@ def advan_case(rng: random.Random, cid, advan, trans, scale, alag, bio, ratemode
         aux = rng.choice(["TVX", "GRPF", "WTF"])
         prog.append(asg(aux, bin_("add", num(1), bin_("mul", var("ETA(2)"), num(1, 4)))))
     for i, p in enumerate(names):
-        e = theta() if nth < 7 else num(*rng.choice(PARAM_VALUES))
+        e = theta() if nth < 7 else num(*rng.choice(DEC_VALUES))
         if i == 0 and rng.random() < 0.6:
             e = bin_("mul", e, fn("EXP", var("ETA(1)")))
         elif aux and rng.random() < 0.3:
@@ -650,7 +651,7 @@ def general_case(rng: random.Random, cid):
         if nth < 8:
             nth += 1
             return var(f"THETA({nth})")
-        return num(*rng.choice(PARAM_VALUES))
+        return num(*rng.choice(DEC_VALUES))
 
     rate_name = {}
     for (i, j) in sorted(edges):
